@@ -5,6 +5,9 @@ HERE = os.path.dirname(os.path.dirname(os.path.abspath(__file__)))
 BASE = json.load(open('/root/.vp/BASELINE.json'))
 
 CHECKS = {
+ 'C08': dict(cat='exploration', sec='3/C08', technique='runtime monitoring under a cooperative scheduler at the app level: logical clients serialised at cache reads/writes, file-lock operations, write_atomic/bundle file-system calls and upstream enter/return; oracle on responses (NOISE), final cache sweep and per-meta-tile fetch counts; plus forked multi-process stress with injected delays',
+   text='2-6 clients request the same tile, tiles of one meta tile or tiles of two meta tiles (through /tiles requests and TileManager batches) on an empty file / sqlite / compact-v2 cache with meta 1x1..3x2, WMS or bulk tile source; the scheduler owns every backend call, every FileLock step (virtual clock), the os.open/rename/unlink of write_atomic and bundle writers, cooperative replacements of the backends\' thread locks, and the upstream call. Random, sticky and PCT schedules; a cross-block probe holds one client inside the upstream while clients of another meta tile must finish; fault runs fail the first upstream call. Judged: every response pixel-equals NOISE, the cache ends with exactly the tiles of the touched meta tiles, one upstream request per meta tile, no deadlock. Stress rounds fork 2-5 real processes on one cache directory with random delays and count identical upstream requests across processes.',
+   note='trusted: scheduler, proxies, NOISE. Code between scheduling points is atomic in cooperative mode; multi-process schedules are stressed, not enumerated. concurrent_tile_creators=1 here (C04 exercises creator threads).'),
  'C04': dict(cat='exploration', sec='3/C04', technique='runtime monitoring: real TileManagers from the real loader driven against a pixel-unique NOISE upstream; recording proxy around the cache backend + upstream log; every produced/stored tile compared pixel-exactly (or within one pixel where a buffer is cut at the grid border) with the upstream picture',
    text='Cache configurations are generated over meta_size (1x1..5x3), meta_buffer (0..200 on 32-128 px tiles, so buffers exceed tiles), minimize_meta_requests, bulk_meta_tiles, concurrent_tile_creators 1/2/4, WMS and tile sources, file/sqlite/compact backends, 3 SRS, 4 bbox classes, both origins, factor-2/sqrt2/free/explicit ladders; each is driven by single-tile, TMS, multi-tile batch and WMS GetMap requests aimed at grid corners and edges. The NOISE upstream gives every pixel of the pyramid a unique colour, so any wrong crop offset, row order, level or lost tile is a total mismatch. Judged: returned tiles, all stored tiles (sweep), one store group = all in-grid tiles of one meta tile, one upstream request per group (sequential creators). Exploration is the reachable level: the configuration space is a product of unbounded parameters.',
    note='trusted: the NOISE function and lattice (taken from the loaded grid\'s bbox/resolutions/origin), PIL png codec. Pixels within one pixel of the grid border or outside it are not judged. Real threads (concurrent_tile_creators) are not schedule-controlled here (C08 does that).'),
